@@ -47,13 +47,27 @@ def build_exe(binfo, scratch, name, text, q, o):
 
 def gen_schedule(rng, route, nalloc, start, tier):
     """A schedule = list of plan lines (explicit events)."""
-    kind = rng.weighted([("per", 5), ("win", 3), ("hash", 3), ("after", 3), ("natural", 2)])
+    kind = rng.weighted([("per", 5), ("win", 3), ("hash", 3), ("after", 3), ("natural", 2), ("tailwin", 4), ("tailper", 2)])
     cap = 300 if route == "interp" else (5000 if tier == "quick" else 60000)
     lines = []
     frm = start if rng.chance(2, 3) else 0
     total = max(nalloc, 10)
     if kind == "natural":
         return lines, {"kind": "natural"}
+    if kind in ("tailwin", "tailper"):
+        # the program's own work is the END of the allocation timeline (on the interpreter route the
+        # compilation comes first): dense stretches of consecutive collections placed in a tail of
+        # seeded length, so that they fall inside the program's loops rather than inside start-up
+        tail = rng.loguniform(min(1000, total), max(min(1000, total), total // 2))
+        wlen = 60 if route == "interp" else 400
+        if kind == "tailwin":
+            for _ in range(rng.range(2, max(2, cap // wlen))):
+                lines.append("gc win %d %d" % (total - tail + rng.below(tail), rng.loguniform(2, wlen)))
+        else:
+            k = max(1, tail // cap)
+            lines.append("gc per %d %d %d" % (k, rng.below(k), total - tail))
+        lines.append("gc cap %d" % cap)
+        return lines, {"kind": kind}
     if kind == "per":
         lo = 1 if route != "interp" else max(1, (total - frm) // cap)
         k = rng.loguniform(max(1, lo), 1000 if route != "interp" else max(lo, 20000))
@@ -173,6 +187,10 @@ def main(argv):
         # through their FIRST field exhausts the C stack during a collection
         dc = progen.b_chain("0", vsim.Rng(seed, "c09-deepchain"), 0, length=400000)
         cands.append({"name": "deepchain.as", "text": progen.render([("chain", dc[0], dc[2])]).encode(), "origin": "generated"})
+        # micro programs: one block kind each, a handful of iterations - small enough for a collection
+        # at EVERY allocation of the program's own work (exhaustive over that stretch)
+        for name, text in progen.micro_programs(vsim.Rng(seed, "c09-micro")):
+            cands.append({"name": name, "text": text.encode(), "origin": "micro"})
         cs = worlds.corpus(max_bytes=5000)
         rngc = vsim.Rng(seed, "c09-corpus")
         rngc.shuffle(cs)
@@ -236,8 +254,19 @@ def main(argv):
                 start[route] = int(vsim.parse_log(hr.log)["z"].get("allocs", 0) * 0.8)
 
         cases = []
+        micro_blocks = 0
         for wi, (c, route, ref, nalloc) in enumerate(work):
             rng = vsim.Rng(seed, "c09-sched", c["name"], route)
+            if c["origin"] == "micro":
+                own = max(300, nalloc - start[route])	# the program's own work is the end of the timeline
+                if route == "exe":
+                    cases.append((wi, base_plan(rng, route) + ["gc per 1 0 %d" % max(0, nalloc - own - 200), "gc cap 200000"], {"kind": "micro-every"}))
+                else:
+                    nblk = min((own + 299) // 300 + 1, 14 if tier == "quick" else 80)
+                    for j in range(nblk):
+                        cases.append((wi, base_plan(rng, route) + ["gc win %d 300" % max(1, nalloc - (j + 1) * 300), "gc cap 300"], {"kind": "micro-every"}))
+                        micro_blocks += 1
+                continue
             if route == "exe" and nalloc <= 50000 and tier == "thorough":
                 cases.append((wi, base_plan(rng, route) + ["gc per 1 0", "gc cap 100000"], {"kind": "every"}))
             for _ in range(nsched):
@@ -358,7 +387,7 @@ def main(argv):
             "programs": len(progs), "program_names": [c["name"] for c in progs], "programs_not_built": skipped,
             "program_routes_removed_unstable_reference": unstable,
             "program_routes": len(work), "worlds_planned": len(cases), "worlds_run": done,
-            "schedule_kinds": kinds,
+            "schedule_kinds": kinds, "micro_programs_every_allocation_blocks": micro_blocks,
             "forced_collections_executed": forced, "forced_collections_that_freed_storage": freed,
             "audits_executed": audits, "allocator_audit_failures_observed_not_gated": audit_fail[:5],
             "startup_allocations": start,
